@@ -867,6 +867,99 @@ def gen_variant_case(rng, spec, m1):
 
 
 # ---------------------------------------------------------------------------------------
+# histories on one model object: simulate, re-parameterise (+ steady + solve), simulate again; copies
+# ---------------------------------------------------------------------------------------
+
+HISTORY_KINDS = ["poly-f", "poly-b", "rat-f", "rat-b", "solow", "rbc"]      # programs that have parameters
+
+
+def reparam(rng, spec):
+    """the same program with other parameter values (and the matching steady-state assignment)"""
+    import copy as _copy
+    new = _copy.deepcopy(spec)
+    if spec["kind"].startswith("solow") or spec["kind"].startswith("rbc"):
+        for _ in range(8):
+            other = gen_solow(rng) if spec["kind"].startswith("solow") else gen_rbc(rng)
+            if other["params"] != spec["params"]:
+                break
+        new["params"], new["assign"] = other["params"], other["assign"]
+    else:
+        for v in spec["tvars"]:
+            d = rng.choice([0.5, -0.5, 0.75, 1.0, -1.25])
+            new["params"][f"{v}_ss"] = spec["params"][f"{v}_ss"] + d
+            new["assign"][v] = spec["assign"][v] + d
+    return new
+
+
+def apply_params(m, spec):
+    with quiet():
+        m.assign(**spec["params"])
+        m.assign(**spec["assign"])
+        m.steady()
+        m.solve()
+    sol = m._gets_solution(deviation=False)
+    T = np.asarray(sol.T, dtype=float)
+    return bool(np.isfinite(T).all() and (not T.size or max(abs(np.linalg.eigvals(T))) <= 0.98))
+
+
+def run_history_case(ctx: Ctx, specs, sc, steps, only_cfg=None):
+    """`specs` = the same program under successive parameterisations; `steps` = list of (index into specs, "same" | "copy", method):
+    every simulate() of the history is judged with the parameters in force at that moment"""
+    m = build_model(specs[0])
+    if m is None:
+        ctx.count("gen:model-rejected")
+        return 0
+    judged = 0
+    current = 0
+    for si, (pi, how, method) in enumerate(steps):
+        spec = specs[pi]
+        if how == "copy":
+            m = m.copy()
+        if pi != current:
+            if not apply_params(m, spec):
+                ctx.count("history:reparam-rejected")
+                return judged
+            current = pi
+        if method == "period_by_period" and m.max_lead:
+            method = "stacked_time"
+        db, span = build_db(spec, m, sc)
+        cfg = dict(method=method, terminal="first_order", initial_guess="first_order" if method == "stacked_time" else "data", solver="func-only")
+        kw = {"initial_guess": cfg["initial_guess"], "solver_settings": {"max_iterations": MAX_ITER, "step_tolerance": float("inf")}}
+        if method == "stacked_time":
+            kw["terminal"] = "first_order"
+        try:
+            out, info, ok = run_simulate(m, db, span, method, **kw)
+        except Exception as e:
+            ctx.count(f"history:{method}:raised:{type(e).__name__}")
+            continue
+        if not ok:
+            ctx.count(f"not-success:history:{method}")
+            continue
+        case = {"history": specs, "scenario": sc, "steps": steps, "failing_step": si}
+        nf = len(ctx.failures)
+        k = judge_run(ctx, case, m, spec, db, span, method, "first_order" if method == "stacked_time" else "data", out, info)
+        ctx.evaluations += 1
+        judged += 1
+        ctx.count("oracle:residuals-recomputed", k)
+        ctx.count(f"judged:history:step{si}:{how}:{method}")
+        if len(ctx.failures) == nf:
+            ctx.nontriv((spec["kind"], "history", si, how, method, pi, sc["n"]))
+        else:
+            return judged
+    return judged
+
+
+def gen_history_case(rng, kind=None):
+    spec0 = gen_spec(rng, kind or rng.choice(HISTORY_KINDS))
+    spec1 = reparam(rng.fork("p1"), spec0)
+    spec2 = reparam(rng.fork("p2"), spec0)
+    methods = ["stacked_time", "period_by_period"]
+    steps = [[0, "same", rng.choice(methods)], [1, "same", rng.choice(methods)], [1, "same", rng.choice(methods)],
+             [2, "copy", rng.choice(methods)], [0, "same", rng.choice(methods)]]
+    return [spec0, spec1, spec2], steps
+
+
+# ---------------------------------------------------------------------------------------
 # correspondence with the Lean model
 # ---------------------------------------------------------------------------------------
 
@@ -1196,8 +1289,10 @@ def replay_corpus(ctx: Ctx):
         payload = json.load(open(path))
         case = payload.get("case", payload)
         try:
-            if "scenarios" in case:
-                run_variant_case(ctx, case["spec"], case["scenarios"], case.get("plan"), only_cfg=case.get("config"))
+            if "history" in case:
+                run_history_case(ctx, case["history"], case["scenario"], case["steps"])
+            elif "scenarios" in case:
+                run_variant_case(ctx, case["spec"], case["scenarios"], case.get("plan"), only_cfg=case.get("config"), model_nv=case.get("model_variants"))
             else:
                 run_case(ctx, case["spec"], case["scenario"], only_cfg=case.get("config"))
             ctx.count("corpus:replayed")
@@ -1211,7 +1306,9 @@ def run(ctx: Ctx):
                 "(frequency, span length 1..12, unanticipated shocks -> several frames, anticipated shocks, perturbed initial conditions, exogenous paths, "
                 "off-steady terminal data) x every configuration (stacked_time x terminal x initial_guess x solver tolerances; period_by_period on backward-looking "
                 "models). evaluations = simulate() calls that reported success and were judged by the oracle. distinct_nontrivial = distinct tuples (model kind, "
-                "method, terminal, initial_guess, min(#frames,3), has leads, lag>1, anticipated shocks, perturbed initial condition, span length) judged without failure")
+                "method, terminal, initial_guess, min(#frames,3), has leads, lag>1, anticipated shocks, perturbed initial condition, span length) judged without failure; "
+                "plus log-linear programs with lags 2-3 of log-variables, several data variants (with as many, fewer or one model variant(s), with and without a plan) "
+                "and histories on one model object (simulate, re-parameterise + steady + solve, simulate again, copy), each judged with the inputs / parameters in force")
     replay_corpus(ctx)
     n_cases = ctx.n(24, 500)
     n_lean = ctx.n(14, 200)
@@ -1249,11 +1346,30 @@ def run(ctx: Ctx):
                 continue
             scs, plan = gen_variant_case(rng, spec, m1)
             ctx.count(f"variants:model:{spec['kind']}:{len(scs)}v:{'plan' if plan else 'no-plan'}")
-            run_variant_case(ctx, spec, scs, plan)
+            # as many model variants as data variants / a single-variant model over several data variants / one model variant fewer
+            model_nv = [len(scs), 1, max(1, len(scs) - 1)][i % 3]
+            run_variant_case(ctx, spec, scs, plan, model_nv=model_nv)
             if i == 0:
                 ctx.sample({"source": source_of(spec), "variant_scenarios": scs, "plan": plan})
         except Exception as e:
             ctx.count(f"variants:raised:{type(e).__name__}")
+    # histories on one model object: simulate, re-parameterise, simulate again, copy, ...
+    for i in range(ctx.n(6, 60)):
+        rng = ctx.rng.fork(f"history{i}")
+        try:
+            specs, steps = gen_history_case(rng, HISTORY_KINDS[i % len(HISTORY_KINDS)])
+            m0 = build_model(specs[0])
+            if m0 is None:
+                ctx.count("gen:model-rejected")
+                continue
+            sc = gen_scenario(rng, specs[0], m0, True)
+            sc["missing"] = {k_: v_ for k_, v_ in (sc.get("missing") or {}).items() if k_ != "init"}
+            ctx.count(f"history:model:{specs[0]['kind']}")
+            run_history_case(ctx, specs, sc, steps)
+            if i == 0:
+                ctx.sample({"source": source_of(specs[0]), "parameterisations": [sp["params"] for sp in specs], "steps": steps})
+        except Exception as e:
+            ctx.count(f"history:raised:{type(e).__name__}")
     replies = ctx.model("C06", [it[1] for it in items])
     compare_items(ctx, items, replies)
     ctx.extra["programs"] = sum(v for k, v in ctx.counts.items() if k.startswith("model:"))
@@ -1271,7 +1387,11 @@ def search(ctx: Ctx, seeds):
             sc = gen_scenario(rng, spec, m, not spec["linear"])
             run_case(ctx, spec, sc)
             scs, plan = gen_variant_case(rng.fork("variants"), spec, m)
-            run_variant_case(ctx, spec, scs, plan)
+            run_variant_case(ctx, spec, scs, plan, model_nv=[len(scs), 1, max(1, len(scs) - 1)][i % 3])
+            specs, steps = gen_history_case(rng.fork("history"))
+            m0 = build_model(specs[0])
+            if m0 is not None:
+                run_history_case(ctx, specs, gen_scenario(rng.fork("hsc"), specs[0], m0, True), steps)
         except Exception as e:
             ctx.count(f"search:raised:{type(e).__name__}")
         if ctx.failures:
@@ -1280,8 +1400,10 @@ def search(ctx: Ctx, seeds):
 
 def replay(ctx: Ctx, payload):
     case = payload.get("case", payload)
-    if isinstance(case, dict) and "scenarios" in case:
-        run_variant_case(ctx, case["spec"], case["scenarios"], case.get("plan"), only_cfg=case.get("config"))
+    if isinstance(case, dict) and "history" in case:
+        run_history_case(ctx, case["history"], case["scenario"], case["steps"])
+    elif isinstance(case, dict) and "scenarios" in case:
+        run_variant_case(ctx, case["spec"], case["scenarios"], case.get("plan"), only_cfg=case.get("config"), model_nv=case.get("model_variants"))
     elif isinstance(case, dict) and "spec" in case:
         run_case(ctx, case["spec"], case["scenario"], only_cfg=case.get("config"))
         rng = ctx.rng.fork("replay")
